@@ -171,7 +171,7 @@ theorem dead_is_silent (c : Cfg) (s : State) (k : Key) (sz : Nat) (hk : findAllo
 def cfg0 : Cfg :=
   { permT := 300 * sec, chanT := 600 * sec, lifeT := 600 * sec, maxLife := 3600 * sec, rtpMTU := 1600
     inMTU := 1600, bindT := 30 * sec, resvT := 30 * sec, strict := false, hasAuth := true, hasQuota := false
-    relay4 := ⟨false, 1⟩, relay6 := ⟨true, 1⟩, lis := [⟨false, 1, false, []⟩] }
+    relay4 := ⟨false, 1⟩, relay6 := ⟨true, 1⟩, lis := [⟨false, 1, false, [], []⟩] }
 def okCred : Cred := ⟨true, true, true, true, true, true, true, "alice"⟩
 def k0 : Key := ⟨0, ⟨⟨false, 7⟩, 4000⟩⟩
 def alloc2s : Op := .msg k0 100 (.allocate 1 okCred (.val 2) (.val 17) false .absent .absent .absent ⟨some 50001, true, none, ""⟩)
